@@ -112,11 +112,13 @@ struct Rend
     const char *name;
     bool dbl;
     char *(*fn)(double x, char *buf, int prec); // float renderers get (float)x, which is exact for the float families
+    double range;   // supported magnitude range: shape, digit count, value and sign are judged for |x| < range
+    bool via_float; // the argument is (converted to) a float before it is rendered: classify doubles by (float)x
 };
 static const Rend RENDS[] = {
-    {"igris_f32toa", false, [](double x, char *b, int p) { return igris_f32toa((float)x, b, (int8_t)p); }},
-    {"igris_f64toa", true, [](double x, char *b, int p) { return igris_f64toa(x, b, (int8_t)p); }},
-    {"igris_ftoa", true, [](double x, char *b, int p) { return igris_ftoa(x, b, (int8_t)p); }},
+    {"igris_f32toa", false, [](double x, char *b, int p) { return igris_f32toa((float)x, b, (int8_t)p); }, 0x1p31, true},
+    {"igris_f64toa", true, [](double x, char *b, int p) { return igris_f64toa(x, b, (int8_t)p); }, 0x1p31, true},
+    {"igris_ftoa", true, [](double x, char *b, int p) { return igris_ftoa(x, b, (int8_t)p); }, 0x1p31, true},
     // the debug-print renderer, captured through debug_putchar and copied out (precision >= 0 only: it has no automatic mode)
     {"debug_printdec_double_prec", true,
      [](double x, char *b, int p) {
@@ -126,9 +128,22 @@ static const Rend RENDS[] = {
          memcpy(b, g_cap, n);
          b[n] = 0;
          return b;
-     }},
+     },
+     0x1p64, false}, // the integer part is a uint64_t
+    // its float entry point (a forwarder in the unchanged tree; also behind debug_printdec_float and dpr(float))
+    {"debug_printdec_float_prec", false,
+     [](double x, char *b, int p) {
+         g_capn = 0;
+         debug_printdec_float_prec((float)x, p);
+         int n = g_capn < (int)sizeof g_cap - 1 ? g_capn : (int)sizeof g_cap - 1;
+         memcpy(b, g_cap, n);
+         b[n] = 0;
+         return b;
+     },
+     0x1p64, true},
 };
-static const int NREND = 4;
+static const int NREND = 5;
+static const int R_DPRINT_DOUBLE = 3, R_DPRINT_FLOAT = 4;
 
 enum Cls
 {
@@ -171,8 +186,13 @@ static bool judge(const Rend &r, double x, int prec, const char *t, size_t len, 
 {
     // input class of a signature: by the magnitude of the argument as binary32 (the double entry points document
     // delegation to the float renderer, so 2^31 - 1 as a double is the float 2^31)
-    double xe = (double)(float)x;
-    const char *xcls = std::isnan(x) ? "nan" : std::isinf(x) ? "inf" : std::isinf(xe) ? "overflows_binary32" : fabs(xe) >= 0x1p31 ? "abs_ge_2p31" : "abs_lt_2p31";
+    double xe = r.via_float ? (double)(float)x : x;
+    bool wide = r.range > 0x1p31; // the debug printers: up to 2^64
+    const char *xcls = std::isnan(x)          ? "nan"
+                       : std::isinf(x)        ? "inf"
+                       : std::isinf(xe)       ? "overflows_binary32"
+                       : fabs(xe) >= r.range  ? (wide ? "abs_ge_2p64" : "abs_ge_2p31")
+                                              : (wide ? "abs_lt_2p64" : "abs_lt_2p31");
     ty.n++;
     // tokens
     if (std::isnan(x))
@@ -201,7 +221,7 @@ static bool judge(const Rend &r, double x, int prec, const char *t, size_t len, 
     char c0 = (t[0] == '+' || t[0] == '-') ? t[1] : t[0];
     bool token = (c0 == 'i' || c0 == 'I' || c0 == 'n' || c0 == 'N') &&
                  (!strcasecmp(t, "inf") || !strcasecmp(t, "+inf") || !strcasecmp(t, "-inf") || !strcasecmp(t, "nan"));
-    bool beyond = fabs(xe) >= 0x1p31; // includes overflows_binary32
+    bool beyond = fabs(xe) >= r.range; // includes overflows_binary32
     if (token)
     {
         static const char *const K_TOKEN_KIND = "finite_rendered_as_token";
@@ -254,7 +274,7 @@ static bool judge(const Rend &r, double x, int prec, const char *t, size_t len, 
         return false;
     }
     int kk = k < 0 ? 0 : k;
-    if (fabs(xe) >= 0x1p31)
+    if (fabs(xe) >= r.range)
         return true; // beyond the supported magnitude range only "numeric characters, no write beyond the text" is demanded
     ty.in_range++;
     ty.lens |= 1ull << (len & 63);
@@ -344,7 +364,7 @@ static void emit(const Tally &ty)
     if (ty.tokens)
         mc::outcome("token");
     mc::count("rendered_in_supported_range", (long)ty.in_range);
-    mc::count("rendered_beyond_2p31_chars_only", (long)(ty.n - ty.in_range - ty.tokens));
+    mc::count("rendered_beyond_supported_range_chars_only", (long)(ty.n - ty.in_range - ty.tokens));
     mc::count(mc::fmt("worst_error_in_percent_of_tolerance_%03d", (int)(ty.worst * 100 / 10) * 10), 1);
 }
 
@@ -512,7 +532,7 @@ MC_INIT
     mc::add_check("render_f32_family_all_precisions", [] {
         int c0 = mc::choose(256 * 2);
         uint32_t ef = c0 / 2, sign = c0 % 2;
-        mc::describe("binary32 exponent field %u sign %u: %zu mantissas x precisions -1..12, igris_f32toa + debug_printdec_double_prec (+ f64toa, ftoa at 4 precisions)", ef, sign,
+        mc::describe("binary32 exponent field %u sign %u: %zu mantissas x precisions -1..12, igris_f32toa + debug_printdec_double_prec/_float_prec (+ f64toa, ftoa at 4 precisions)", ef, sign,
                      g_m23.size());
         mc::crash_context("C12.igris_f32toa.memory");
         Tally ty;
@@ -523,7 +543,7 @@ MC_INIT
                 for (int r = 0; r < NREND; r++)
                 {
                     int pr = PRECS_ALL[pi];
-                    if (r == 3 && pr < 0)
+                    if (r >= R_DPRINT_DOUBLE && pr < 0)
                         continue; // no automatic mode
                     if ((r == 1 || r == 2) && !(pr == -1 || pr == 0 || pr == 6 || pr == 10))
                         continue; // the double entry points on float values: four precisions here, all of them in (2) and (3)
@@ -554,7 +574,7 @@ MC_INIT
         }
         int c0 = mc::choose((int)A.size());
         long a = A[c0];
-        mc::describe("x = (%ld + h/2)/10^q, q = 0..10, h = 0,1, float neighbours -2..+2, both signs, precisions -1..12, four renderers", a);
+        mc::describe("x = (%ld + h/2)/10^q, q = 0..10, h = 0,1, float neighbours -2..+2, both signs, precisions -1..12, five renderers", a);
         mc::crash_context("C12.igris_f32toa.memory");
         Tally ty;
         for (int q = 0; q <= 10; q++)
@@ -571,8 +591,8 @@ MC_INIT
                         float x = f_of((cb + d) | sign << 31);
                         for (int pi = 0; pi < 14; pi++)
                             for (int r = 0; r < NREND; r++)
-                                if (r < 3 || PRECS_ALL[pi] >= 0)
-                                    check_render(RENDS[r], (double)x, PRECS_ALL[pi], ty, r < 3);
+                                if (r < R_DPRINT_DOUBLE || PRECS_ALL[pi] >= 0)
+                                    check_render(RENDS[r], (double)x, PRECS_ALL[pi], ty, r < R_DPRINT_DOUBLE);
                     }
                 }
             }
@@ -596,17 +616,56 @@ MC_INIT
             {
                 double x = d_of(sign << 63 | ef << 52 | m);
                 for (int pi = 0; pi < 14; pi++)
-                    for (int r = 1; r < NREND; r++)
+                    for (int r = 1; r <= R_DPRINT_DOUBLE; r++) // doubles: not the float forwarder
                     {
                         int pr = PRECS_ALL[pi];
-                        if (r == 3 && pr < 0)
+                        if (r == R_DPRINT_DOUBLE && pr < 0)
                             continue;
                         if (r == 2 && !(pr == -1 || pr == 0 || pr == 6 || pr == 10))
                             continue; // igris_ftoa is igris_f64toa: four precisions
-                        check_render(RENDS[r], x, pr, ty, r < 3 && pi % 4 == 0);
+                        check_render(RENDS[r], x, pr, ty, r < R_DPRINT_DOUBLE && pi % 4 == 0);
                     }
             }
             mc::tick();
+        }
+        mc::crash_context("C12.harness");
+        emit(ty);
+        if (ty.in_range)
+            mc::nontrivial();
+        mc::more_cases(ty.n - 1, ty.in_range ? ty.in_range - 1 : 0);
+    });
+
+    // (3b) the debug printers on large magnitudes: every power of two 2^24..2^64 and every power of ten 10^8..10^19, as floats,
+    //      with their float neighbours -2..+2 ulp (2^32 - 1 ulp = 4294967040 is the largest float below 2^32), both signs,
+    //      precisions 0..12: debug_printdec_float_prec and debug_printdec_double_prec; the double printer also on the double
+    //      neighbours -1..+1 ulp of each power. The integer part of the unchanged routines is a uint64_t: exact below 2^64.
+    mc::add_check("debug_printdec_large_magnitudes", [] {
+        int c0 = mc::choose((41 + 12) * 2);
+        int which = c0 / 2;
+        uint32_t sign = c0 % 2;
+        double centre = which < 41 ? ldexp(1.0, 24 + which) : (double)g_p10[8 + (which - 41)];
+        mc::describe("%s%s%d: float neighbours -2..+2 ulp (and double neighbours -1..+1 for the double printer) x precisions 0..12", sign ? "-" : "+",
+                     which < 41 ? "2^" : "10^", which < 41 ? 24 + which : 8 + which - 41);
+        mc::crash_context("C12.debug_printdec_float_prec.memory");
+        Tally ty;
+        uint32_t cb = bits_of((float)centre);
+        for (int d = -2; d <= 2; d++)
+        {
+            float x = f_of((cb + d) | sign << 31);
+            if (!std::isfinite(x))
+                continue;
+            for (int pr = 0; pr <= 12; pr++)
+            {
+                check_render(RENDS[R_DPRINT_FLOAT], (double)x, pr, ty, false);
+                check_render(RENDS[R_DPRINT_DOUBLE], (double)x, pr, ty, false);
+            }
+        }
+        uint64_t db = bits_of(centre);
+        for (int d = -1; d <= 1; d++)
+        {
+            double x = d_of((db + d) | (uint64_t)sign << 63);
+            for (int pr = 0; pr <= 12; pr++)
+                check_render(RENDS[R_DPRINT_DOUBLE], x, pr, ty, false);
         }
         mc::crash_context("C12.harness");
         emit(ty);
